@@ -46,6 +46,10 @@ CLAIMED = {
             "Theorems (Properties_C04.v): for every number of checkers, every semaphore capacity and EVERY complete schedule of spawn/work/finish steps, the lines printed after the barrier equal the sequential run in checker order (C04_sched_confluent, via an invariant tying each slot to its checker's sequential result); every capacity >= 1 is deadlock-free, capacity 0 blocks; at most 'capacity' workers hold a token; distinct steps never write a cell another reads or writes (race freedom of the model's footprints); a cached analyzer configuration is never replaced and all passes, in any order, use it. PARTIAL by nature: the theorems cover scheduling logic and footprints, not the compiled program's memory accesses. Tie/oracle: both CLI mains with -concurrency in {1,2,3,GOMAXPROCS,64} must print byte-identical output; per file the printed lines are compared in Coq with the checker-order concatenation of sequential in-process results; race-detector builds of the CLI (varying GOMAXPROCS) and of the go/analysis driver (parallel vs -debug=p) must report no DATA RACE and identical diagnostics.",
             "Trusted: Coq kernel + vm_compute; the footprint abstraction (workers read shared state, write only their own context and slot) is an assumption discharged for real checkers only by C05's checks and the race detector; Go runtime scheduler and memory model not modelled.",
             "§5 C04"),
+    "C09": ("Coq theorems over the text-edit algebra, the commentFormatting decision/fix and the regenerated Suggest-template table + apply-parse-typecheck-recheck oracle on every fix",
+            "PARTIAL. Theorems (Properties_C09.v): applying an edit leaves every byte before and after its range unchanged and has the stated length, for all files/ranges/replacements; the comment-formatting fix inserts exactly one space and the fixed comment is never reported again; over the Suggest-template table regenerated from the shipped rules, every template except wrapperFunc's two strings.Cut templates neither drops a wildcard statement run of its pattern nor contains a '...' placeholder (those two are refuted and recorded as findings). NOT a theorem (no formal Go grammar/type system here): that substituted code parses and type-checks — decided by the oracle: each fix on the checkers' example packages and on directed files with marker statements is applied, the file re-parsed, the package re-type-checked, the replacement parsed as the category it replaces, markers inside the replaced range must survive, and the checker is re-run on the fixed file; quoted replacement code of the listed hand-written checkers is parsed. Tie: commentFormatting decisions and fix bytes on generated comment texts compared in Coq with the model.",
+            "Trusted: Coq kernel + vm_compute; translator for gen/SuggestTable.v; go/parser, go/types as references; type preservation of the replaced expression itself is only checked through 'package still type-checks'.",
+            "§5 C09"),
 }
 
 NOT_APPLICABLE = {}
